@@ -59,6 +59,25 @@ struct World {
 };
 
 // ---- size-limit scenarios: byte strings made of long runs, reported run-length encoded (exact contents, compactly) ----
+/// whether the len bytes at p all equal c (memcmp of the block against itself shifted by one: library speed, also under ASan)
+static bool Uniform(const char *p, const size_t len, const char c) {
+    return len == 0 || (p[0] == c && (len == 1 || memcmp(p, p + 1, len - 1) == 0));
+}
+/// first position >= k whose byte differs from p[k] (galloping + bisection)
+static size_t RunEnd(const char *p, const size_t k, const size_t n) {
+    const char c = p[k];
+    size_t e = k + 1, step = 64;
+    while (e < n) {
+        size_t len = std::min(step, n - e);
+        if (Uniform(p + e, len, c)) { e += len; step *= 2; continue; }
+        while (len > 1) {
+            const size_t half = len / 2;
+            if (Uniform(p + e, half, c)) { e += half; len -= half; } else len = half;
+        }
+        return p[e] == c ? e + 1 : e;
+    }
+    return e;
+}
 static std::string Rle(const SBuf &b) {
     if (b.length() > SBuf::maxSize) return "[[0,0]]"; // never equals a canonical encoding
     std::ostringstream o;
@@ -67,8 +86,7 @@ static std::string Rle(const SBuf &b) {
     const size_t n = b.length();
     size_t k = 0; bool first = true;
     while (k < n) {
-        size_t e = k;
-        while (e < n && p[e] == p[k]) ++e;
+        const size_t e = RunEnd(p, k, n);
         o << (first ? "" : ",") << "[" << int((unsigned char)p[k]) << "," << (e - k) << "]";
         first = false;
         k = e;
